@@ -152,15 +152,15 @@ func c06Build(shape int, focus string) *c06shape {
 	}
 	tcbNU, qeNU, pckCrlNU, rootCrlNU := nu("tcbNext", 5), nu("qeNext", 6), nu("pckCrlNext", 7), nu("rootCrlNext", 8)
 	ti.NextUpdate, qi.NextUpdate = world.TimeStr(tcbNU), world.TimeStr(qeNU)
-	ti.IssueDate, qi.IssueDate = world.TimeStr(mo(-1)), world.TimeStr(mo(-1))
+	ti.IssueDate, qi.IssueDate = world.TimeStr(mo(-300)), world.TimeStr(mo(-300)) // issued long ago: a stricter "not yet issued" check must not interfere
 	g := world.NewGetter()
 	g.Responses[world.URLTcbInfo(hexs(plat.FMSPC))] = world.Response{Header: map[string][]string{world.HdrTcbInfo: {world.IssuerChainHeader(tcbSigner, tcbRoot)}},
 		Body: world.SignedBody("tcbInfo", world.MustJSON(ti), pki.TcbKey)}
 	g.Responses[world.URLQeIdentity] = world.Response{Header: map[string][]string{world.HdrQeIdentity: {world.IssuerChainHeader(qeSigner, qeRoot)}},
 		Body: world.SignedBody("enclaveIdentity", world.MustJSON(qi), qeKey)}
 	g.Responses[world.URLPckCrl("platform")] = world.Response{Header: map[string][]string{world.HdrPckCrl: {world.IssuerChainHeader(crlInter, crlRoot)}},
-		Body: world.MakeCRL(world.CRLSpec{Issuer: inter, Signer: pki.InterKey, ThisUpdate: mo(-1), NextUpdate: pckCrlNU})}
-	g.Responses[world.RootCRLURL] = world.Response{Body: world.MakeCRL(world.CRLSpec{Issuer: chainRoot, Signer: pki.RootKey, ThisUpdate: mo(-1), NextUpdate: rootCrlNU})}
+		Body: world.MakeCRL(world.CRLSpec{Issuer: inter, Signer: pki.InterKey, ThisUpdate: mo(-300), NextUpdate: pckCrlNU})}
+	g.Responses[world.RootCRLURL] = world.Response{Body: world.MakeCRL(world.CRLSpec{Issuer: chainRoot, Signer: pki.RootKey, ThisUpdate: mo(-300), NextUpdate: rootCrlNU})}
 	s.getter = g
 	s.roots = world.Pool(poolRoot)
 	con := func(name string, field, level int, nb, na time.Time) {
